@@ -291,7 +291,7 @@ pub fn c03_scenarios(tier: Tier) -> Vec<Scenario> {
         c = with_hooks(c, 2, SUSPENDING);
         let mut sc = ConcScenario::new(c, vec![vec![get(), Op::Release], vec![get(), Op::Release]], base);
         sc.prefill = prefill;
-        v.push(conc_paid(&format!("abandon-every-await/{}/ms1", name), "two getters on one slot; every manager / hook call suspends, each suspension may be abandoned (dropped future or injected panic), including a waiter that was already granted the slot", if b.thorough { 3 } else { 2 }, if b.thorough { 2 } else { 1 }, sc));
+        v.push(conc_paid(&format!("abandon-every-await/{}/ms1", name), "two getters on one slot; every manager / hook call suspends, each suspension may be abandoned (dropped future or injected panic), including a waiter that was already granted the slot", 3, if b.thorough { 2 } else { 1 }, sc));
     }
     let mut c = PoolCfg::simple(2);
     c.create_menu = SUSPENDING.to_vec();
@@ -299,7 +299,7 @@ pub fn c03_scenarios(tier: Tier) -> Vec<Scenario> {
     c = with_hooks(c, 4, SUSPENDING);
     let mut sc = ConcScenario::new(c, vec![vec![get(), Op::Release], vec![get(), Op::Release]], base);
     sc.prefill = 2;
-    v.push(conc_paid("abandon-with-two-hooks/ms2", "two hooks per kind (async, sync), two idle objects: abandonment after one or more rejected objects", if b.thorough { 3 } else { 1 }, if b.thorough { 2 } else { 1 }, sc));
+    v.push(conc_paid("abandon-with-two-hooks/ms2", "two hooks per kind (async, sync), two idle objects: abandonment after one or more rejected objects", if b.thorough { 3 } else { 2 }, if b.thorough { 2 } else { 1 }, sc));
     // abandonment by an enclosing deadline (tokio::time::timeout around get())
     {
         use crate::tworld::{run_enclosing, EnclosingScenario, PState};
@@ -322,12 +322,26 @@ pub fn c03_scenarios(tier: Tier) -> Vec<Scenario> {
         c.create_menu = SUSPENDING.to_vec();
         c.recycle_menu = SUSPENDING.to_vec();
         c = with_hooks(c, layout, SUSPENDING);
-        let mut sc = SeqScenario::new(c, if b.thorough { 8 } else { 6 }, base);
+        let mut sc = SeqScenario::new(c, if b.thorough { 10 } else { 8 }, base);
         sc.max_tasks = 2;
         sc.prefill = prefill;
         sc.take = false;
         sc.gets_nonblocking = false;
-        v.push(seq(&format!("abandon-histories/hooks{}/ms{}", layout, ms), "histories in which every manager / hook call suspends and any pending get() may be abandoned at that point", if b.thorough { 3 } else { 2 }, sc));
+        v.push(seq(&format!("abandon-histories/hooks{}/ms{}", layout, ms), "histories in which every manager / hook call suspends and any pending get() may be abandoned at that point", if b.thorough { 4 } else { 3 }, sc));
+    }
+    // pool states reached through resize(): permits owed after a shrink while
+    // gets are waiting, creating or recycling - and are then abandoned
+    for (ms, prefill, targets) in [(2usize, 1usize, vec![1usize, 2]), (1, 0, vec![0, 2])] {
+        let mut c = PoolCfg::simple(ms);
+        c.create_menu = vec![Out::Ok, Out::PendOk];
+        c.recycle_menu = vec![Out::Ok, Out::PendOk];
+        let mut sc = SeqScenario::new(c, if b.thorough { 10 } else { 8 }, base);
+        sc.max_tasks = 2;
+        sc.prefill = prefill;
+        sc.take = false;
+        sc.gets_nonblocking = false;
+        sc.resize_targets = targets;
+        v.push(seq(&format!("abandon-after-resize/ms{}", ms), "histories with resize(): a get() that waits, creates or recycles on a shrunk or grown pool is abandoned; capacity probe and ledger at the end", if b.thorough { 4 } else { 3 }, sc));
     }
     v
 }
@@ -603,6 +617,22 @@ pub fn c11_scenarios(tier: Tier) -> Vec<Scenario> {
     c.post_create = vec![hook(false, SYNC_MENU), hook(true, FAULTY)];
     let sc2 = ConcScenario::new(c, vec![vec![get(), Op::Release], vec![get(), Op::Release], vec![Op::Status]], base);
     v.push(conc_paid("status-vs-failing-post-create/ms2", "failing / panicking post_create hooks (the 0.9.5 overflow) observed by status()", if b.thorough { 3 } else { 2 }, b.f, sc2));
+    // thread level: retain() (which rewrites the size counter) racing with the
+    // other writers of it - take, create, a failing recycle, resize
+    let mut sc = ConcScenario::new(PoolCfg::simple(2), vec![vec![Op::Retain], vec![get(), Op::Take]], base);
+    sc.prefill = 2;
+    v.push(conc("retain-vs-take/ms2", "retain racing with get + take; status() at every quiescent point and at rest", b.p, 0, sc.clone()));
+    sc.prefill = 1;
+    sc.actors = vec![vec![Op::Retain], vec![get(), Op::Release], vec![get(), Op::Release]];
+    v.push(conc_paid("retain-vs-create/ms2", "retain racing with one get that reuses and one that creates", b.p, 0, sc.clone()));
+    let mut c = PoolCfg::simple(2);
+    c.recycle_menu = vec![Out::Ok, Out::Err];
+    let mut sc = ConcScenario::new(c, vec![vec![Op::Retain], vec![get(), Op::Release]], base);
+    sc.prefill = 1;
+    v.push(conc("retain-vs-failing-recycle/ms2", "retain racing with a get whose recycle fails (object discarded, replacement created)", b.p, 1, sc));
+    let mut sc = ConcScenario::new(PoolCfg::simple(2), vec![vec![Op::Retain], vec![Op::Resize(1)], vec![get(), Op::Release]], base);
+    sc.prefill = 2;
+    v.push(conc_paid("retain-vs-resize/ms2", "retain racing with a shrink and a get", b.p, 0, sc));
     v.extend(seq_core(tier, base));
     let mut c = PoolCfg::simple(2);
     c.create_menu = vec![Out::Ok, Out::Err, Out::PendOk];
@@ -709,10 +739,10 @@ pub fn unmanaged_scenarios(tier: Tier, with_close: bool) -> Vec<Scenario> {
 pub fn c10_scenarios(tier: Tier) -> Vec<Scenario> {
     use crate::tworld::{run_time, run_utime, PState, TimeScenario, UTimeScenario};
     let b = bounds(tier);
-    let ev = if b.thorough { 8 } else { 6 };
+    let ev = if b.thorough { 11 } else { 8 };
     let mut v = Vec::new();
     for with_runtime in [true, false] {
-        for state in [PState::Empty, PState::Idle, PState::Exhausted, PState::Closed, PState::Owed] {
+        for state in [PState::Empty, PState::Idle, PState::Exhausted, PState::Closed, PState::Owed, PState::Shared] {
             let sc = TimeScenario { with_runtime, state, max_events: if with_runtime { ev } else { 2 } };
             v.push(Scenario::new(
                 &format!("managed/{}/{:?}", if with_runtime { "tokio" } else { "no-runtime" }, state),
